@@ -202,6 +202,31 @@ func (ex *Exec) shimIntrinsic(st *State, fn *ssa.Function, args []Value, depth i
 			}
 			return []Value{PtrV{Obj: s.NewObj(BigV{T: t})}}
 		}), true
+	case "zzBigWithWords":
+		// a non-negative big integer of exactly n machine words whose value is otherwise
+		// arbitrary (natively: 2^(64n)-1); only its length is visible to the code under test
+		return ex.runIntrinsic(st, func(s *State) []Value {
+			n := args[0].(*Term)
+			if n.IsConst() {
+				k := int(ex.constInt(n))
+				if k < 0 || k > 1<<20 {
+					unsupported("zzBigWithWords(%d)", k)
+				}
+				v := new(big.Int).Sub(pow2(64*k), bigOne)
+				return []Value{PtrV{Obj: s.NewObj(BigV{T: ex.bigConst(v)})}}
+			}
+			if !ex.IntMode {
+				unsupported("zzBigWithWords with a symbolic length needs mode=int")
+			}
+			a := NewVar("BigW", IntSort)
+			a.Lo = bigZero
+			s.AuxVars = append(s.AuxVars, a)
+			s.Assume(ICmpRaw("<=", IntC64(0), a))
+			s.Assume(Eq(Eq(n, IntC64(0)), Eq(a, IntC64(0))))
+			bindBitsLen(a, n)
+			bindBitsLen(ex.bigAbs(a), n)
+			return []Value{PtrV{Obj: s.NewObj(BigV{T: a})}}
+		}), true
 	case "zzNondetBigBits":
 		return ex.runIntrinsic(st, func(s *State) []Value {
 			bT := args[0].(*Term)
